@@ -41,7 +41,8 @@ ASSUMPTIONS = [
     "solve_assignment: no R_trace (CPython str-set order decides ties); the network is rebuilt in Lean in a fixed numbering",
     "the implementation's pooled dict is split over parallel arcs cheapest-first by the harness before the verified "
     "checker runs (any other split costs at least as much, so verdicts on capacity/balance/optimality are unaffected)",
-    "excluded region: negative-cost cycles, negative capacities, negative demand, non-integer data",
+    "excluded region: negative-cost cycles, negative capacities, negative demand, non-integer data, and costs beyond "
+    "2**53 for network_simplex (its contract types costs as float and it prices in doubles)",
     "ssp_certifies is proved (s-t and transshipment form: without a negative-cost cycle the certified SSP model never "
     "ends without an answer; ssp_sound: every answer is right); the driver runs that certifying model, so 'no certified "
     "answer' on an explored input would mean a negative cycle slipped through the generator - an infrastructure error",
@@ -53,7 +54,9 @@ RULE = ("networks of 2..6 nodes (8 thorough), <= 12 arcs (16), costs -3..6 built
         "(plus unbalanced and capacity-infeasible ones) for network_simplex, which also receives every s-t instance; "
         "rectangular assignment matrices 0..5 x 0..5; a fixed share (about 14 %) of 'large cost base' instances for all "
         "three functions: integer costs B + 0..9 with B in 1e6..1e12 on layered / transportation networks (several sources "
-        "and sinks, equal-length alternative routes, balanced supplies) and matrices, compared exactly as integers; non-trivial = the model made >= 2 augmentations or used a "
+        "and sinks, equal-length alternative routes, balanced supplies) and matrices, compared exactly as integers; about 10 % numeric-edge cases (huge odd capacities, demands, supplies and - for "
+        "min_cost_flow / solve_assignment - costs above 2**53, integral floats for network_simplex costs/supplies, 8-25 "
+        "unit routes next to a huge one); non-trivial = the model made >= 2 augmentations or used a "
         "backward residual arc; distinct by canonical (function, instance)")
 TIMEOUT = 1.5        # min_cost_flow / solve_assignment: >= 1000x the run time of any explored instance
 TIMEOUT_NS = 8.0     # network_simplex stops at max_iter = 1e6 (about 4-10 s on these sizes)
@@ -143,9 +146,9 @@ def py_maxflow(n, arcs, s, t):
                     q.append(v)
         if par[t] < 0:
             return total
-        d, v = 10 ** 9, t
+        d, v = None, t
         while v != s:
-            d = min(d, cap[par[v]][v])
+            d = cap[par[v]][v] if d is None else min(d, cap[par[v]][v])
             v = par[v]
         v = t
         while v != s:
@@ -341,7 +344,94 @@ def gen_bigcost(rng, big, fn):
     return {"fn": fn, "graph": graph, "source": labs[s], "sink": labs[t], "demand": demand}
 
 
+HUGE = [2 ** 53 + 1, 2 ** 53 + 3, 3 * 2 ** 53 + 1, 2 ** 60 + 7, 10 ** 18 + 3, 2 ** 64 + 1]
+
+
+def _mcf_case(rng, n, arcs, s, t, demand):
+    labs = fc.label_maker(rng, n)
+    keys = []
+    for a in arcs:
+        if a[0] not in keys:
+            keys.append(a[0])
+    graph = [[labs[u], [[labs[a[1]], a[2], a[3]] for a in arcs if a[0] == u]] for u in keys]
+    return {"fn": "min_cost_flow", "graph": graph, "source": labs[s], "sink": labs[t], "demand": demand}
+
+
+def gen_numeric(rng, big, fn):
+    """numeric edge: huge ODD integers above 2**53 (no double holds them) as capacities, demands, supplies and (for
+    min_cost_flow / solve_assignment, which compute in Python ints) costs, mixed with small ones; integral floats
+    where the contract has floats (network_simplex costs and supplies); long augmenting sequences of unit routes.
+    network_simplex prices in doubles by contract (cost: float), so its costs stay small here."""
+    h = lambda: rng.choice(HUGE) + rng.choice([0, 2, 4])      # noqa: E731  (odd)
+    if fn == "solve_assignment":
+        n = rng.randint(1, 4)
+        m = rng.randint(1, 4)
+        base = rng.choice(HUGE)
+        return {"fn": fn, "matrix": [[(base + 2 * rng.randint(0, 4)) if rng.random() < 0.8 else rng.randint(0, 9)
+                                      for _ in range(m)] for _ in range(n)]}
+    if fn == "network_simplex":
+        # either huge integers throughout (costs small ints), or small values given as integral floats: a float
+        # next to a value above 2**53 would make the contract itself inexact (sum(supplies), flow * cost in doubles)
+        floaty = rng.random() < 0.3
+        n = rng.randint(2, 5)
+        arcs = []
+        for u in range(n):
+            for v in range(n):
+                if u != v and rng.random() < 0.45:
+                    cap = rng.randint(1, 5) if floaty or rng.random() < 0.4 else h()
+                    cost = rng.randint(0, 6)
+                    arcs.append([u, v, cap, float(cost) if floaty and rng.random() < 0.7 else cost])
+        sup = [0] * n
+        for _ in range(rng.randint(1, 2)):
+            u, v = rng.sample(range(n), 2)
+            k = rng.randint(1, 4) if floaty or rng.random() < 0.4 else h()
+            sup[u] += k
+            sup[v] -= k
+        if floaty:
+            sup = [float(x) if rng.random() < 0.7 else x for x in sup]
+        return {"fn": fn, "n": n, "arcs": arcs, "supplies": sup}
+    kind = rng.random()
+    if kind < 0.3:      # many unit routes of different cost: a long augmenting sequence
+        k = rng.randint(8, 25 if big else 16)
+        s, t, nid, arcs = 0, 1, 2, []
+        for _ in range(k):
+            arcs += [(s, nid, 1, rng.randint(0, 5)), (nid, t, rng.choice([1, 2]), rng.randint(0, 5))]
+            nid += 1
+        hc = h()
+        arcs += [(s, nid, hc, 7), (nid, t, hc, 7)]
+        nid += 1
+        rng.shuffle(arcs)
+        return _mcf_case(rng, nid, arcs, s, t, rng.choice([k, k - 1, k + 1, k + hc, k + hc + 1]))
+    n = rng.choice([2, 3, 4, 5])
+    s, t = rng.sample(range(n), 2)
+    arcs, seen = [], set()
+    for u in range(n):
+        for v in range(n):
+            if u != v and (v, u) not in seen and rng.random() < 0.5:
+                seen.add((u, v))
+                cap = h() if rng.random() < 0.5 else rng.randint(0, 6)
+                cost = h() if rng.random() < 0.5 else rng.randint(0, 6)     # costs >= 0: no negative cycle
+                arcs.append((u, v, cap, cost))
+    inner = [x for x in range(n) if x not in (s, t)]
+    rng.shuffle(inner)
+    p = [s] + inner[:rng.randint(0, 2)] + [t]
+    for i in range(len(p) - 1):
+        if (p[i + 1], p[i]) not in seen and (p[i], p[i + 1]) not in seen:
+            seen.add((p[i], p[i + 1]))
+            arcs.append((p[i], p[i + 1], h(), h() if rng.random() < 0.5 else rng.randint(0, 6)))
+    rng.shuffle(arcs)
+    mf = py_maxflow(n, arcs, s, t)
+    demand = rng.choice([mf, mf, max(0, mf - 1), mf + 1, rng.randint(1, 5), h()])
+    return _mcf_case(rng, n, arcs, s, t, demand)
+
+
 def edge_cases():
+    # numeric edge: values no double can hold
+    yield {"fn": "min_cost_flow", "graph": [["s", [["t", 2 ** 53 + 1, 2 ** 53 + 3]]]], "source": "s", "sink": "t", "demand": 3}
+    yield {"fn": "min_cost_flow", "graph": [["s", [["t", 2 ** 60 + 7, 1]]]], "source": "s", "sink": "t", "demand": 2 ** 60 + 7}
+    yield {"fn": "network_simplex", "n": 2, "arcs": [[0, 1, 2 ** 53 + 3, 1]], "supplies": [2 ** 53 + 1, -(2 ** 53 + 1)]}
+    yield {"fn": "network_simplex", "n": 3, "arcs": [[0, 1, 4, 2.0], [1, 2, 4, 1.0], [0, 2, 1, 5.0]], "supplies": [3.0, 0.0, -3.0]}
+    yield {"fn": "solve_assignment", "matrix": [[2 ** 53 + 1, 2 ** 53 + 3], [2 ** 53 + 5, 2 ** 53 + 1]]}
     yield {"fn": "min_cost_flow", "graph": [], "source": "s", "sink": "t", "demand": 1}
     yield {"fn": "min_cost_flow", "graph": [], "source": "s", "sink": "t", "demand": 0}
     yield {"fn": "min_cost_flow", "graph": [["s", [["a", 2, 1]]]], "source": "s", "sink": "t", "demand": 1}
@@ -766,11 +856,20 @@ def verdict(ctx, fn, suffix, case, out, model, ichk, problem, rep):
     return ok
 
 
+def ns_cost_safe(n, arcs):
+    """network_simplex prices in doubles with a big-M of n * sum|cost| + 1: below 2**51 every reduced cost it forms
+    from integer costs is exact; beyond 2**53 small costs are absorbed by the big-M (a decidable input feature)"""
+    return (n + 1) * sum(abs(a[3]) for a in arcs) * 4 < 2 ** 53
+
+
 def ns_suffix(arcs, out):
     """class suffix of a network_simplex failure: the observed tree-update defect, else the input feature"""
     info = out[1] if out[0] == "ok" else (out[2] if len(out) > 2 else {})
     if isinstance(info, dict) and info.get("tree_corrupted"):
         return ":basis_tree_corrupted"
+    nodes = 1 + max([max(a[0], a[1]) for a in arcs] + [0])
+    if not ns_cost_safe(nodes, arcs):
+        return ":cost_sum_beyond_2p53"      # (proposed finding: doubles absorb small costs next to the big-M)
     return ":parallel_arcs" if has_parallel(arcs) else ""
 
 
@@ -824,7 +923,9 @@ def evaluate(cases, ctx=None, twins_too=True):
             order = _set_order(fc.graph_dict(c["graph"]), fc.dec(c["source"]), fc.dec(c["sink"]))
             idx, raw = mcf_instance(c, order)
             s, t, d = idx[fc.dec(c["source"])], idx[fc.dec(c["sink"])], c["demand"]
-            if s != t and d >= 0 and twins_too:   # every s-t instance also goes to network_simplex (common instances)
+            # every s-t instance also goes to network_simplex (common instances) unless its costs leave the range
+            # in which double pricing is exact (recorded separately, see proposed_findings: cost_sum_beyond_2p53)
+            if s != t and d >= 0 and twins_too:
                 sup = [0] * len(idx)
                 sup[s] += d
                 sup[t] -= d
@@ -834,7 +935,7 @@ def evaluate(cases, ctx=None, twins_too=True):
         elif fn == "solve_assignment":
             meta.append(({}, [], None))
         else:
-            meta.append(({i: i for i in range(c["n"])}, [list(a) for a in c["arcs"]], None))
+            meta.append(({i: i for i in range(c["n"])}, [[a[0], a[1], int(a[2]), int(a[3])] for a in c["arcs"]], None))
     allouts = run_impl(list(cases) + twins)
     outs, touts = allouts[:len(cases)], allouts[len(cases):]
     for c, o, mt in zip(cases, outs, meta):
@@ -864,7 +965,7 @@ def evaluate(cases, ctx=None, twins_too=True):
                     problems.append(tproblem)
                 reqs.append(["mcf_st", len(idx), arcs, idx[fc.dec(c["source"])], idx[fc.dec(c["sink"])], c["demand"], impls])
             else:
-                reqs.append(["mcf_ts", c["n"], arcs, c["supplies"], impls])
+                reqs.append(["mcf_ts", c["n"], arcs, [int(x) for x in c["supplies"]], impls])
         meta[ci] = meta[ci] + (arcs, problems)
     replies = Driver("Flow").run(reqs, chunks=8 if len(reqs) > 200 else 1)
     res = []
@@ -1155,6 +1256,13 @@ def run(ctx, budget):
             cases.append(gen_bigcost(ctx.rng, b, "min_cost_flow"))
         if i % 10 == 2:
             cases.append(gen_bigcost(ctx.rng, b, "solve_assignment"))
+        # fixed share (about 10 %) of numeric-edge cases: huge odd integers above 2**53, integral floats, long sequences
+        if i % 8 == 3:
+            cases.append(gen_numeric(ctx.rng, b, "min_cost_flow"))
+        if i % 8 == 5:
+            cases.append(gen_numeric(ctx.rng, b, "network_simplex"))
+        if i % 16 == 7:
+            cases.append(gen_numeric(ctx.rng, b, "solve_assignment"))
     run_cases(ctx, cases)
     _summarise(ctx)
 
